@@ -584,9 +584,10 @@ def resolve_external_location(
             max_retries + 1,
             extra={"url": redact_url(url), "attempts": max_retries + 1, "error_type": type(exc).__name__},
         )
-        raise RuntimeError(
-            f"Failed to resolve ExternalLocation after {max_retries + 1} attempts: {redact_url(url)}"
-        ) from None
+    # Raised after the ``except`` block has been left: ``raise ... from None``
+    # inside it would only hide the fetch error from tracebacks while keeping
+    # it (and the signed URL it can hold) reachable as ``__context__``.
+    raise RuntimeError(f"Failed to resolve ExternalLocation after {max_retries + 1} attempts: {redact_url(url)}")
 
 
 def _fetch_and_resolve(
